@@ -413,3 +413,143 @@ def _(rng):
     k = rng.randint(2, 5)
     ms, _ = _model(rng, sizes=[rng.randint(0, 3 * m + 2) for _ in range(k)], m=m)
     return dict(model=ms)
+
+GL = 'fast_ticc.graphical_lasso.'
+LK = 'fast_ticc.likelihood.'
+CMx = 'fast_ticc.cluster_metrics.'
+ML = 'fast_ticc.main_loop.'
+FE = 'fast_ticc.front_end.'
+Lb = 'fast_ticc.cluster_label_assignment.'
+
+
+@gen(GL + '_zero_small_elements')
+def _(rng):
+    n = rng.randint(1, 5)
+    return dict(array=farr(rng, n, n) * rng.choice([1.0, 0.25]), epsilon=rng.choice([0.0, 0.5, 1.0, 2.0]), copy=rng.random() < 0.5)
+
+
+@gen(GL + '_reconstruct_optimized_matrix')
+def _(rng):
+    ms, _d = _model(rng)
+    ms.arguments.min_meaningful_covariance = rng.choice([0.0, 0.0, 0.5, 1.0])
+    n = rng.randint(1, 5)
+    return dict(model=ms, compressed_result=farr(rng, n * (n + 1) // 2))
+
+
+@gen(GL + '_update_cluster_covariances')
+def _(rng):
+    from fast_ticc import matrix_compression
+    ms, _d = _model(rng)
+    mode = rng.random()
+    if mode < 0.25:
+        n = rng.choice([60, 100, 120])
+        theta = np.eye(n) * rng.choice([1e-4, 1e4, 1e-6])       # determinant far outside the range of a double
+    else:
+        n = rng.randint(1, 5)
+        theta = _spd(rng, n)
+    return dict(model=ms, cluster=_cluster(rng, 2), admm_result=matrix_compression.compress_matrix(theta))
+
+
+@gen(LK + 'point_log_likelihood_fast')
+def _(rng):
+    w, n = rng.randint(1, 3), rng.randint(1, 3)
+    nw = w * n
+    th = _spd(rng, nw)
+    return dict(point=farr(rng, nw), mu_i=farr(rng, nw), theta_i=th, log_det_theta=float(np.linalg.slogdet(th)[1]),
+                window_size=w, num_data_series=n)
+
+
+@gen(LK + 'point_log_likelihood')
+def _(rng):
+    w, n = rng.randint(1, 3), rng.randint(1, 3)
+    c = _cluster(rng, w * n)
+    c.log_determinant = float(np.linalg.slogdet(c.inverse_covariance)[1])
+    return dict(point=farr(rng, w * n), cluster=c, window_size=w, num_data_series=n)
+
+
+@gen(LK + 'all_points_all_clusters_log_likelihood_fast')
+def _(rng):
+    w, n, k, t = rng.randint(1, 3), rng.randint(1, 2), rng.randint(1, 3), rng.randint(1, 6)
+    nw = w * n
+    thetas = np.array([_spd(rng, nw) for _ in range(k)])
+    return dict(window_size=w, num_clusters=k, mus=np.array([farr(rng, nw) for _ in range(k)]), thetas=thetas,
+                log_det_thetas=np.array([np.linalg.slogdet(x)[1] for x in thetas]), stacked_training_data=farr(rng, t, nw))
+
+
+def _fitted_model(rng, big=False):
+    """well-formed model with per-cluster statistics and SPD precisions of the right size"""
+    w = rng.randint(1, 2)
+    n = rng.randint(1, 2)
+    nw = w * n
+    ms, data = _model(rng, sizes=[rng.randint(1, 5) for _ in range(rng.randint(2, 3))], nw=nw)
+    ms.arguments.window_size = w
+    for c in ms.clusters:
+        c.train_inverse = _spd(rng, nw) * (rng.choice([1e-80, 1e80]) if big else 1.0)
+        c.inverse_covariance = c.train_inverse
+        c.log_determinant = float(np.linalg.slogdet(c.train_inverse)[1])
+        c.stacked_data_mean = data[c.member_points].mean(axis=0) if c.member_points else farr(rng, nw)
+        c.empirical_covariance = _spd(rng, nw)
+        c.computed_covariance = np.linalg.inv(c.train_inverse)
+    return ms, data
+
+
+@gen(LK + 'all_points_all_clusters_log_likelihood')
+def _(rng):
+    ms, data = _fitted_model(rng, big=rng.random() < 0.2)
+    return dict(model=ms, stacked_training_data=data)
+
+
+@gen(CMx + 'bayesian_information_criterion')
+def _(rng):
+    return dict(model=_fitted_model(rng, big=rng.random() < 0.2)[0])
+
+
+@gen(CMx + 'calinski_harabasz_index')
+def _(rng):
+    ms, data = _fitted_model(rng)
+    data = data + np.arange(data.shape[1]) * rng.choice([0.0, 4.0, 10.0])      # sensors with different offsets
+    for c in ms.clusters:
+        c.stacked_data_mean = data[c.member_points].mean(axis=0)
+    return dict(stacked_training_data=data, model=ms)
+
+
+@gen(ML + '_compute_log_likelihood_by_cluster')
+def _(rng):
+    ms, data = _fitted_model(rng)
+    if rng.random() < 0.4:      # a run that ends with a cluster owning no point
+        from fast_ticc.containers import model_state
+        extra = model_state.ClusterParameters.empty_cluster()
+        src = ms.clusters[0]
+        extra.stacked_data_mean, extra.inverse_covariance, extra.log_determinant, extra.train_inverse = \
+            src.stacked_data_mean, src.inverse_covariance, src.log_determinant, src.train_inverse
+        ms.clusters.append(extra)
+        ms.arguments.num_clusters += 1
+    return dict(stacked_training_data=data, model=ms)
+
+
+@gen(Lb + 'predict_cluster_labels')
+def _(rng):
+    ms, data = _fitted_model(rng)
+    ms.arguments.label_switching_cost = float(rng.choice([0, 1, 5]))
+    return dict(model=ms, test_data=data)
+
+
+@gen(FE + '_split_combined_result')
+def _(rng):
+    from fast_ticc.containers import results
+    w = rng.randint(1, 5)
+    sizes = [rng.randint(0, 5) for _ in range(rng.randint(1, 4))]
+    labels = [rng.randint(0, 2) for _ in range(sum(sizes))]
+    master = results.SingleDataSeriesResult(bayesian_information_criterion=1.0, calinski_harabasz_index=2.0, label_assignment_cost=3.0,
+                                            overall_log_likelihood=4.0, overall_log_likelihood_mean=5.0, overall_log_likelihood_median=6.0,
+                                            cluster_log_likelihood_mean=np.zeros(3), cluster_log_likelihood_median=np.zeros(3),
+                                            all_log_likelihood=[0.0], markov_random_fields=[np.eye(2)], num_clusters=3,
+                                            point_labels=labels, window_size=w)
+    return dict(master_result=master, stacked_data_sizes=sizes, data_series=[farr(rng, s + w - 1, 2) for s in sizes])
+
+
+@gen('fast_ticc.data_preparation.stack_training_data_multiple_series')
+def _(rng):
+    w = rng.randint(1, 4)
+    n = rng.randint(1, 3)
+    return dict(all_series=[farr(rng, rng.randint(w, w + 5), n) for _ in range(rng.randint(1, 4))], window_size=w)
